@@ -63,7 +63,17 @@ type withEntry struct {
 	unq     bool   // key written without quotes
 	lit     string // literal value (when fromVar == "")
 	fromVar string // value is the expression `fromVar ~ 'w'`, evaluated in the includer's scope
+	fail    int    // != 0: the value is an expression whose evaluation fails (failDiv0, failNoFilter, failFunc)
 }
+
+// with-values that cannot be evaluated
+const (
+	failDiv0     = 1 + iota // 1 / 0
+	failNoFilter            // 'x'|nosuch — a filter nobody registered
+	failFunc                // boom() — a registered function whose callback returns an error
+)
+
+var failExpr = [...]string{"", "1 / 0", "'x'|nosuch", "boom()"}
 
 type tmpl struct {
 	extends string
@@ -153,6 +163,9 @@ func printInclude(n nInclude) string {
 			v := q(w.lit)
 			if w.fromVar != "" {
 				v = w.fromVar + " ~ 'w'"
+			}
+			if w.fail != 0 {
+				v = failExpr[w.fail]
 			}
 			parts = append(parts, k+": "+v)
 		}
@@ -429,6 +442,9 @@ func (c *evalCtx) include(n nInclude, sc *scope) (string, bool) {
 	var adds []kv
 	if n.withOn {
 		for _, e := range n.with {
+			if e.fail != 0 {
+				return "", false // a `with` value that cannot be evaluated: the include fails (the target exists)
+			}
 			v := e.lit
 			if e.fromVar != "" {
 				v = sc.vars[e.fromVar] + "w"
